@@ -347,7 +347,10 @@ func runReplay(dir, pkgDir string, limitS int) (bool, string) {
 	defer cancel()
 	cmd := exec.CommandContext(ctx, "go", "test", "-overlay", ovFile, "-vet=off", "-count=1", "-timeout", fmt.Sprintf("%ds", limitS), "-run", "^TestGovcReplay$", "./"+pkgDir+"/")
 	cmd.Dir = root
-	cmd.Env = append(os.Environ(), "GOFLAGS=-mod=mod", "GOPROXY=off", "GOSUMDB=off", "GOTOOLCHAIN=local")
+	tmp := filepath.Join(dir, "tmp")
+	os.MkdirAll(tmp, 0o755)
+	defer os.RemoveAll(tmp)
+	cmd.Env = append(os.Environ(), "GOFLAGS=-mod=mod", "GOPROXY=off", "GOSUMDB=off", "GOTOOLCHAIN=local", "TMPDIR="+tmp)
 	b, _ := cmd.CombinedOutput()
 	out := string(b)
 	if len(out) > 4000 {
